@@ -19,7 +19,7 @@ from .scenarios import BaseScenario
 from .snapshot import ustr
 from .world import World
 
-EXITS = ["abort", "normal", "close", "double_close", "helper_r", "helper_rplus_from_r", "helper_r_on_closed"]
+EXITS = ["abort", "normal", "close", "double_close", "helper_r", "helper_rplus_from_r", "helper_r_on_closed", "helper_abort_on_closed", "helper_abort_from_r"]
 OP_KINDS = {"mk_group": 5, "mk_object": 9, "add_data": 10, "add_comment": 2, "add_file": 1, "set_values": 4, "rename": 3, "set_flag": 2,
             "set_meta": 3, "move": 3, "copy": 4, "rm_ws": 4, "pg_add": 3, "pg_new": 1, "gc": 3, "observe": 2, "lookup": 1, "type_edit": 1}
 SKIP_GETTERS = {"workspace", "entity_type", "parent", "children", "property_groups", "attribute_map", "concatenator", "comments",
@@ -35,7 +35,7 @@ class LifecycleScenario(BaseScenario):
     level = "fault_enumeration"
 
     def __init__(self):
-        self.expected_probes = ["abort_at_0", "abort_mid", "abort_at_end", "exit_normal", "exit_close", "exit_double_close", "exit_helper_r",
+        self.expected_probes = ["abort_at_0", "abort_mid", "abort_at_end", "exit_normal", "exit_close", "exit_double_close", "exit_helper_abort", "exit_helper_r",
                                 "stale_getter_closed_error", "stale_getter_value", "stale_setter_refused", "reopen_same_object"]
         self.rule = ("one evaluation = one (history, crash point, exit kind) triple. For each seeded history of n <= 12 world-machine operations inside "
                      "`with Workspace(...)`, the block is aborted by an exception after o_k for EVERY k in 0..n (exhaustive over crash points of that history), "
@@ -184,6 +184,19 @@ class LifecycleScenario(BaseScenario):
                             sim.probe("exit_normal")
                 except SimAbort:
                     pass
+                if exit_kind in ("helper_abort_on_closed", "helper_abort_from_r") and not world.suspect:
+                    # the block of a helper that (re-)opened the workspace itself is aborted by an exception:
+                    # the helper must still close what it opened
+                    if exit_kind == "helper_abort_from_r":
+                        ws.open(mode="r")
+                    try:
+                        with fetch_active_workspace(ws, mode="r+") as rw:
+                            rw.root.children  # pylint: disable=pointless-statement
+                            sim.fault("abort_helper_block")
+                            raise SimAbort()
+                    except SimAbort:
+                        pass
+                    sim.probe("exit_helper_abort")
                 if world.suspect:
                     out["suspect"] = world.suspect
                 else:
